@@ -118,7 +118,7 @@ pub fn frame_spec_strategy(max_len: u32) -> BoxedStrategy<FrameSpec> {
     )
         .prop_flat_map(|(bps, nch, rate, frames, seed)| {
             proptest::collection::vec(pcm::chan_strategy(bps), nch as usize..=nch as usize)
-                .prop_map(move |chans| FrameSpec { recipe: Recipe { bps, rate, frames, seed, chans, seg: 0 } })
+                .prop_map(move |chans| FrameSpec { recipe: Recipe { bps, rate, frames, seed, chans, seg: 0, ms_mix: 0 } })
         })
         .boxed()
 }
@@ -247,7 +247,7 @@ pub fn run(ctx: &Ctx) {
     let t = ctx.tier;
     let checked = crate::engine::profile() == "checked";
     let conf = Conformance { name: "conformance" };
-    ctx.regress_named(&conf, &["conformance-large", "conformance-shortlen-grid"]);
+    ctx.regress_named(&conf, &["conformance-large", "conformance-shortlen-grid", "conformance-tonal"]);
     ctx.regress(&StreamConformance);
 
     let short = Conformance { name: "conformance-shortlen-grid" };
@@ -274,6 +274,15 @@ pub fn run(ctx: &Ctx) {
         (Tier::Thorough, true) => 12_000,
     };
     ctx.search(&large, n, || c01::enc_case_strategy(true, 2));
+    // music-like material: LPC subframes of all orders, mid/side frames, judged by the independent decoder
+    let tonal = Conformance { name: "conformance-tonal" };
+    let n = match (t, checked) {
+        (Tier::Quick, false) => 6_000,
+        (Tier::Quick, true) => 1_000,
+        (Tier::Thorough, false) => 300_000,
+        (Tier::Thorough, true) => 50_000,
+    };
+    ctx.search(&tonal, n, c01::tonal_case_strategy);
     let n = match (t, checked) {
         (Tier::Quick, false) => 8_000,
         (Tier::Quick, true) => 2_000,
@@ -288,6 +297,7 @@ pub fn engines() -> Vec<Box<dyn crate::engine::DynEngine>> {
         Box::new(Conformance { name: "conformance" }),
         Box::new(Conformance { name: "conformance-shortlen-grid" }),
         Box::new(Conformance { name: "conformance-large" }),
+        Box::new(Conformance { name: "conformance-tonal" }),
         Box::new(StreamConformance),
     ]
 }
